@@ -41,7 +41,8 @@ func TestGovcTitleReplay(t *testing.T) {
 		{"apostrophe", "The fox's seven quick jumps over dogs"},
 		{"empty", ""},
 	}
-	headings := []struct{ key string }{{"same"}, {"other"}, {"none"}}
+	headings := []struct{ key string }{{"same"}, {"split"}, {"other"}, {"none"}}
+	noSpace := func(s string) string { return strings.Join(strings.Fields(s), "") }
 	evals, nontrivial := 0, 0
 	for _, tc := range titles {
 		for _, hd := range headings {
@@ -50,6 +51,12 @@ func TestGovcTitleReplay(t *testing.T) {
 				switch hd.key {
 				case "same":
 					h1 = "<h1>" + tc.text + "</h1>"
+				case "split":
+					// the same text with its first letter in an inline element (one word, two text nodes)
+					if tc.text != "" {
+						_, n := utf8.DecodeRuneInString(tc.text)
+						h1 = "<h1><b>" + tc.text[:n] + "</b>" + tc.text[n:] + "</h1>"
+					}
 				case "other":
 					h1 = "<h1>Completely different heading text here</h1>"
 				}
@@ -80,13 +87,15 @@ func TestGovcTitleReplay(t *testing.T) {
 				} else {
 					// (2) never invented: <title>, a contiguous part of it, or the first h1
 					h1text := ""
-					if hd.key == "same" {
+					if hd.key == "same" || hd.key == "split" {
 						h1text = tc.text
 					} else if hd.key == "other" {
 						h1text = "Completely different heading text here"
 					}
 					norm := govcNormSpace(got)
-					if got != "" && !strings.Contains(govcNormSpace(tc.text), norm) && norm != govcNormSpace(h1text) {
+					// (the h1 text is compared modulo white space: domutil.InnerText, the visible-text
+					// rendering of this code base, separates the text nodes of inline children by blanks)
+					if got != "" && !strings.Contains(govcNormSpace(tc.text), norm) && noSpace(norm) != noSpace(h1text) {
 						t.Errorf("GOVC-FAIL %s/invented :: title %q is neither part of <title> %q nor the h1 %q", key, got, tc.text, h1text)
 					}
 					// (3) exact when 15..150 characters and no separator pattern
@@ -98,13 +107,13 @@ func TestGovcTitleReplay(t *testing.T) {
 					}
 				}
 				// (4) a block whose text is the title is not emitted again in the content
-				if hd.key == "same" && tc.text != "" && got != "" && govcNormSpace(got) == govcNormSpace(tc.text) {
-					if strings.Contains(govcNormSpace(res.Text), govcNormSpace(tc.text)) {
+				if (hd.key == "same" || hd.key == "split") && tc.text != "" && got != "" && govcNormSpace(got) == govcNormSpace(tc.text) {
+					if strings.Contains(noSpace(res.Text), noSpace(tc.text)) {
 						t.Errorf("GOVC-FAIL %s/repeated :: the title %q is repeated in the distilled text", key, got)
 					}
 				}
 			}
 		}
 	}
-	fmt.Printf("GOVC-CASES evaluations=%d distinct_nontrivial=%d rule=%s\n", evals, nontrivial, "16 title shapes x {h1 same, other, none} x {with, without og:title}; distinct by construction; non-trivial = non-empty <title>")
+	fmt.Printf("GOVC-CASES evaluations=%d distinct_nontrivial=%d rule=%s\n", evals, nontrivial, "16 title shapes x {h1 same, same with split first word, other, none} x {with, without og:title}; distinct by construction; non-trivial = non-empty <title>")
 }
